@@ -68,6 +68,8 @@ def cases(draw):
         S.add_trait(draw, prog, "DvTrait", options=True)
         if draw(st.booleans()):
             S.add_trait(draw, prog, "DvOtherTrait", options=True)
+    if draw(st.integers(0, 3)) == 0:
+        S.add_rust_links(draw, prog)
     placed = []
     if draw(st.booleans()):
         placed = draw(S.decorate(prog, disable=False, namespace=True))
